@@ -2589,7 +2589,13 @@ def preprocess_file(
             # Intentionally keep this as a list and not a set. There are cases
             # where projects play tricks with the include order of their headers
             # to get their codes to compile. Using a set would not permit that.
-            for include_dir in include_dirs:
+            # A set has no order of its own: the directory of the including file
+            # first, then the configured directories in a fixed order
+            search_dirs = sorted(include_dirs)
+            if file_path is not None:
+                own_dir = os.path.abspath(os.path.dirname(file_path))
+                search_dirs = [own_dir] + [d for d in search_dirs if d != own_dir]
+            for include_dir in search_dirs:
                 include_path_tmp = os.path.join(include_dir, include_filename)
                 if os.path.isfile(include_path_tmp):
                     include_path = os.path.abspath(include_path_tmp)
